@@ -202,7 +202,7 @@ def frameJ (h h' : Heap) (r : Nat) : FrameV :=
 def kAttrs : Nat := 0
 def kData : Nat := 1
 def kDs : Nat := 0
-def kGdf : Nat := 1
+def kGdf : Nat := 7
 def kLine : Nat := 2
 def kDims : Nat := 4
 def kPoly : Nat := 3
@@ -211,8 +211,8 @@ def kKd : Nat := 6
 /-- inside a cached helper object (`BallTree`, `KDTree`): the reference back to the grid it was
     built from (`_source_grid`) -/
 def kSrc : Nat := 0
-/-- key of variable `v` inside a Dataset cell -/
-def kVar (v : Nat) : Nat := v + 1
+/-- key of variable `v` inside a Dataset cell (even, so that it never collides with `kData`) -/
+def kVar (v : Nat) : Nat := 2 * v + 2
 
 structure VarSpec where
   name : Nat
@@ -381,13 +381,20 @@ def CacheOp.acts : CacheOp → List Act
 
 /-- everything the public API can do to a grid: mutate its dataset or fill / switch / drop a cache -/
 inductive GridOp
-  | mut (m : Mut)
+  | data (m : Mut)
   | cache (c : CacheOp)
 deriving Repr
 
 def GridOp.acts : GridOp → List Act
-  | .mut m => m.actsGrid
+  | .data m => m.actsGrid
   | .cache c => c.acts
+
+/-- every grid operation EXCEPT an in-place write into an array (the one operation that goes through a
+    data reference); a Grid cell has no data reference, so its cache keys differ from `kData` -/
+def GridOp.noArrayWrite : GridOp → Prop
+  | .data (.writeVar _ _) => False
+  | .cache (.switch k _) => k ≠ kData
+  | _ => True
 
 /-- **seeded regression** (`copy()` handing over helper objects that were already built, e.g.
     `grid._ball_tree = self._ball_tree`): the copy's cell also refers to the original's caches `keys`. -/
@@ -406,7 +413,7 @@ def dsVarsShallow (h : Heap) (ds : Nat) : List VarSpec :=
   match h[ds]? with
   | some c => c.refs.filterMap fun kv =>
       if kv.1 = kAttrs then none else
-      some { name := kv.1 - 1, data := [],
+      some { name := (kv.1 - 2) / 2, data := [],
              attrs := match field h kv.2 kAttrs with
                | some a => (match h[a]? with | some ac => ac.data | none => [])
                | none => [],
@@ -425,6 +432,48 @@ def exportShallowAsIs (h : Heap) (g : Nat) : Heap × Nat :=
   match field h g kDs with
   | some ds => allocDs h (dsVarsShallow h ds) (dsAttrsData h ds)
   | none => (h, g)
+
+/-- **`Grid(ds, …)` / `from_dataset(ds, source_grid_spec=…)`, repaired** (`fixes/C19-init-adopts-dataset.patch`):
+    `self._ds = grid_ds.copy()` — a new Dataset with new Variable objects and attribute dictionaries around
+    the caller's arrays; a longitude above 180 is re-wrapped in the NEW variable. -/
+def adoptShallow (h : Heap) (ds : Nat) (lonVar : Nat) (wrapped : Option (List Int)) (spec : List Int) : Heap × Nat :=
+  let r := allocGrid h (dsVarsShallow h ds) (dsAttrsData h ds) spec
+  match wrapped with
+  | some d => (applyAct r.1 r.2 (.fresh [kDs, kVar lonVar] kData d []), r.2)
+  | none => r
+
+/-- the cell an action modifies (if its path resolves) -/
+def actTarget (h : Heap) (r : Nat) : Act → Option Nat
+  | .write p _ => follow h r p
+  | .unlink p _ => follow h r p
+  | .link p _ _ => follow h r p
+  | .fresh p _ _ _ => follow h r p
+
+/-- a path that never goes THROUGH a data reference (never dereferences an array buffer) -/
+def cleanPath (p : Path) : Prop := ∀ k ∈ p, k ≠ kData
+
+/-- an action that neither modifies an array buffer nor stores, under a non-data key, something it
+    found behind a data reference.  Everything the library does to a grid except an in-place write
+    into an array is of this kind. -/
+def CleanAct : Act → Prop
+  | .write p _ => cleanPath p
+  | .unlink p _ => cleanPath p
+  | .link p k q => cleanPath p ∧ (k ≠ kData → cleanPath q)
+  | .fresh p _ _ kids => cleanPath p ∧ ∀ kq ∈ kids, kq.1 ≠ kData → cleanPath kq.2
+
+/-- cells at or above `n0` refer to cells below `n0` only through data references: the state after a
+    shallow adoption (the grid's own Dataset / Variables / attrs above, the caller's arrays below) -/
+def DataOnlyLow (n0 : Nat) (h : Heap) : Prop :=
+  ∀ a c, n0 ≤ a → h[a]? = some c → ∀ p ∈ c.refs, p.1 ≠ kData → n0 ≤ p.2
+
+/-- along the run, every action modifies a cell at or above `n0` (checked in the heap it acts on) -/
+def HighTargets (n0 r : Nat) : Heap → List Act → Prop
+  | _, [] => True
+  | h, a :: l => (∀ t, actTarget h r a = some t → n0 ≤ t) ∧ HighTargets n0 r (applyAct h r a) l
+
+def highTargetsB (n0 r : Nat) : Heap → List Act → Bool
+  | _, [] => true
+  | h, a :: l => (match actTarget h r a with | some t => decide (n0 ≤ t) | none => true) && highTargetsB n0 r (applyAct h r a) l
 
 inductive CopyApi | gridCopy | uxdaDeepCopy | pyDeepcopy
 deriving DecidableEq, Repr
@@ -464,8 +513,13 @@ def exportOp (asIs : Bool) (api : ExportApi) (h : Heap) (g : Nat) : Heap × Nat 
     match field h g kDs with
     | some ds => exportFresh h (dsVarsShallow h ds) (dsAttrsData h ds)
     | none => (h, g)
-  -- caching exporters: known finding, the same in both modes
+  -- `to_geodataframe`: known finding (a pinned upstream test demands the cached frame itself), the same in both modes
   | .gdf => exportCached h g kGdf [77]
-  | .line => exportCached h g kLine [78]
+  -- `to_linecollection`: the cached collection today, a deep copy of it once repaired (as `to_polycollection`)
+  | .line =>
+    if asIs then exportCached h g kLine [78] else
+    match field h g kDs with
+    | some ds => exportFresh h (dsVarsShallow h ds) (dsAttrsData h ds)
+    | none => (h, g)
 
 end UxVerif.Heap
